@@ -925,6 +925,15 @@ func runC12(r *Run, rng *Rng, tier string) error {
 		r.Count("outcome", res.Outcome)
 		r.Count("outcome_"+c.Kind, res.Outcome)
 		for _, m := range c.Muts {
+			if strings.HasPrefix(m, "directed:") {
+				w := strings.Fields(m)
+				key := w[0]
+				if len(w) > 1 {
+					key += " " + strings.SplitN(w[1], "=", 2)[0]
+				}
+				r.Count("directed", key)
+				r.Count("directed_outcome", strings.SplitN(w[0], ":", 3)[1]+" -> "+res.Outcome)
+			}
 			r.Count("mutation", strings.SplitN(m, " ", 2)[0])
 			if j := strings.Index(m, " @"); j >= 0 {
 				if k := strings.Index(m[j+2:], ":"); k >= 0 {
